@@ -248,6 +248,20 @@ func (m *pairModel) isMsgContainer(v ssa.Value, depth int) bool {
 		}
 		return true
 	}
+	// a module helper handing out (a snapshot of) the container
+	if call, ok := v.(*ssa.Call); ok && eng.CalleeName(call.Common()) != "builtin.append" {
+		if rets, g := eng.ReturnedValues(call, 0); g != nil && len(rets) > 0 {
+			all := true
+			for _, rv := range rets {
+				if !m.isMsgContainer(rv, depth+1) {
+					all = false
+				}
+			}
+			if all {
+				return true
+			}
+		}
+	}
 	return m.isRemovedSlice(v, depth)
 }
 
@@ -613,7 +627,7 @@ func (m *pairModel) checkPair(site removeSite, effect string) pairVerdict {
 
 func (m *pairModel) checkIn(T *ssa.Function, ri ssa.Instruction, effect string, depth int, seen map[*ssa.Function]bool) pairVerdict {
 	p := m.c.P
-	if seen[T] || depth > 3 {
+	if seen[T] || depth > 6 {
 		return pairVerdict{false, "", "caller chain too deep"}
 	}
 	seen[T] = true
@@ -630,7 +644,7 @@ func (m *pairModel) checkIn(T *ssa.Function, ri ssa.Instruction, effect string, 
 	case "enforcer-account":
 		pred = m.enforcerRemovePred()
 		allowOff = true
-		if T == m.enforcerLoop {
+		if T == m.enforcerLoop || eng.Outer(T) == m.enforcerLoop {
 			return pairVerdict{true, p.Pos(T.Pos()), "performed by the enforcer goroutine itself (accounting decided by C08/ENFORCER/shape)"}
 		}
 	}
